@@ -191,6 +191,8 @@ SQL_JOIN = (
     ("join", ("K",), ("or", ("only", "iteration", P_A_GT_1), P_TRUE), False),
     ("join", ("K",), None, False, ("a",)),
     ("join", ("self", ("sel", P_A_GT_1), ("calc", "y", A_MINUS_C)), None, False),
+    ("join", ("K", ("proj", ("d",))), ("gt", R("d"), L(100)), False),
+    ("join", ("K", ("proj", ("d",))), None, True),
 )
 SQL_OTHER = (("dedup",), ("mat", "m1"))
 SQL_FULL = SQL_CALC + SQL_PROJ + SQL_SEL + SQL_SORT + SQL_SLICE + SQL_CHAIN + SQL_JOIN + SQL_OTHER
